@@ -509,7 +509,7 @@ class UCSolutionEnumerator():
                 trials = []
             sustain_count = self._block.sustain_count(df)
             for i in range(start, end):
-                if df.applies_to_trial(i + 1):
+                if df.applies_to_trial(i // sustain_count + 1):
                     trials.append(df.select_level_for_sample(i, run, sustain_count))
                 else:
                     trials.append(None)
